@@ -99,4 +99,10 @@ CHECKS["C14"] = dict(
     note="Trusts: realisation of element terms as Python objects. The resolution rule itself is model-checked in MC_Resolve (C02).",
     ref="5 C14")
 
+CHECKS["C15"] = dict(
+    technique="Doc denotation of annotation spellings as a TLA+ operator (Trace_Spell Canon), checked by TLC as premise, then equality of recorded outcomes of two functions that differ only in the spelling, in six surrounding method sets; MC_Types PermutedSame on the Impl order",
+    text="Every listed equivalence (Union / | / tuple in any member order and nesting, Optional vs | None, missing / Any / object, Annotated, string annotations, list vs typing.List, Literal value orders) is generated as ordered pairs; for each pair and each surrounding method set - including a same-signature sibling, so that 're-registration replaces' is exercised across spellings - two real functions are built and called with a corpus of arguments; TLC verifies the pair is equivalent under Canon and that all outcomes coincide.",
+    note="Trusts: realisation of spelling terms as Python annotations. (A, None) written as a tuple is not among the statement's listed forms and is not generated.",
+    ref="5 C15")
+
 PENDING_REASON = "check not built yet in this round (planned, see DESIGN section 10)"
